@@ -6,9 +6,6 @@ PID = "C07"
 LEVEL = "proof"
 LEAN_TARGETS = ["SyneTune.Props.C07"]
 DRIVER = "SyneTune/Drivers/Domain.lean"
-THEOREMS = [
-    # filled in below (kept in one place so that the audit list and the Lean file agree)
-]
 TRUSTED = [
     "hand-written models lean/SyneTune/Model/{Domains,Encoding}.lean tied to /repo by the domain correspondence stream",
     "Python harness harness/streams/domain.py (tape random_state stub with numpy's uniform formula, wire conversion by Fraction)",
@@ -48,13 +45,14 @@ THEOREMS = [
     "SyneTune.C07.sample_member_partial",
     "SyneTune.C07.qrandint_partial",
     "SyneTune.C07.qrandint_counterexample",
-    "SyneTune.C07.sample_list_quantised_int_counterexample",
+    "SyneTune.C07.sample_list_member_partial",
+    "SyneTune.C07.sample_list_quantised_int_example",
     "SyneTune.C07.nn_single_sample_counterexample",
     "SyneTune.C07.nn_single_encoder_counterexample",
     "SyneTune.C07.cast_member",
     "SyneTune.C07.cast_member_id",
     "SyneTune.C07.json_roundtrip_partial",
-    "SyneTune.C07.json_rlog_counterexample",
+    "SyneTune.C07.json_rlog_restored",
     "SyneTune.C07.json_quantized_counterexample",
 ]
 
@@ -75,6 +73,7 @@ def corpus():
         one({"k": "ordinal", "cats": [3.0], "kind": "nn-log"}),
         one({"k": "randint", "lo": 134250960, "hi": 134250962}, {"k": "randint", "lo": 134250960, "hi": 134250961}),
         one({"k": "lograndint", "lo": 140767653771162, "hi": 140767653771167}),
+        one({"k": "lograndint", "lo": 81217153441673, "hi": 244198402052845}),
         one({"k": "logfinrange", "lo": 1.5, "hi": 150.0, "size": 10, "cast_int": True}),
         one({"k": "logfinrange", "lo": 0.6, "hi": 1.6, "size": 2, "cast_int": True}),
         # degenerate but legal: everything must hold
@@ -114,11 +113,9 @@ COUNTEREXAMPLE_SIGNATURES = {
     # Lean `_counterexample` theorem -> signature the corpus replay must raise on the real code
     "SyneTune.C07.qrandint_counterexample": "c07:qrandint-sample-outside-bounds",
     "SyneTune.C07.active_onehot_counterexample": "c07:onehot-zero-corner-inactive-category",
-    "SyneTune.C07.json_rlog_counterexample": "c07:json-reverseloguniform-restored-as-loguniform",
     "SyneTune.C07.json_quantized_counterexample": "c07:json-quantized-not-serialisable",
     "SyneTune.C07.nn_single_sample_counterexample": "c07:ordinal-nn-single-category-sample-raises",
     "SyneTune.C07.nn_single_encoder_counterexample": "c07:ordinal-nn-single-category-not-encodable",
-    "SyneTune.C07.sample_list_quantised_int_counterexample": "c07:qrandint-sample-list-not-int",
     "SyneTune.C07.roundtrip_logfin_castint_counterexample": "c07:logfinrange-castint-roundtrip-changes-value",
 }
 
@@ -132,3 +129,18 @@ def extra(ctx):
         thm: (sig in seen) for thm, sig in COUNTEREXAMPLE_SIGNATURES.items() if thm in THEOREMS
     }
     ctx.notes["ulp_excursions"] = ctx.hist.get("ulp_excursions", 0)
+    # generator targets (DESIGN appendix C, stream `domain`): every constructor, corners, interior
+    # points and both boundary draws must have been exercised by a full run
+    if ctx.evaluations >= 100:
+        tags = [k if not k.startswith("ordinal") else k for k in domain.KINDS]
+        missing = [t for t in tags if ctx.hist.get("kind:" + t, 0) == 0]
+        for key in ("decode:corner", "decode:interior", "decode:box-corner", "decode:eps-margin", "draw:lo", "draw:hi",
+                    "with-active", "with-fixed-last", "degenerate:lower==upper", "degenerate:one-category",
+                    "degenerate:size-1", "roundtrip", "json"):
+            if ctx.hist.get(key, 0) == 0:
+                missing.append(key)
+        ctx.notes["generator_targets_missing"] = missing
+        if missing:
+            raise RuntimeError("weak generator: never produced " + ", ".join(missing))
+        lines = max(1, ctx.hist.get("lines", 1))
+        ctx.notes["free_fraction"] = round(ctx.free / lines, 4)
